@@ -40,7 +40,7 @@ CONTRACTS[M + "add_note"] = dict(
                   "pitch(n) < old_top + 12 for n in self.notes])")])],
     notes="domain: containers holding 0, 1 or 2 notes with ARBITRARY pitches and spellings (the operation reads only the "
           "top note and membership)",
-    properties=["C12"], battery="nc_add")
+    properties=["C12", "C18"], battery="nc_add")
 
 I = "mingus.containers.instrument.Instrument."
 CONTRACTS[I + "note_in_range"] = dict(
@@ -56,7 +56,8 @@ CONTRACTS[I + "note_in_range"] = dict(
 _OTHER_OK = "all([is_name(n.name) for n in notes.notes])"
 CONTRACTS[M + "add_notes"] = dict(
     params={"self": "NoteContainer", "notes": "NoteContainer"},
-    requires=[("pitch-ordered-duplicate-free", RI), ("valid-notes", _OTHER_OK)],
+    requires=[("pitch-ordered-duplicate-free", RI), ("valid-notes", _OTHER_OK),
+              ("argument-duplicate-free", "all([pitch(notes.notes[i]) < pitch(notes.notes[i + 1]) for i in range(len(notes.notes) - 1)])")],
     old={"old_pitches": "[pitch(n) for n in self.notes]", "other_pitches": "[pitch(n) for n in notes.notes]",
          "other_list": "notes.notes", "other_len": "len(notes.notes)"},
     returns="list[any]",
@@ -66,12 +67,15 @@ CONTRACTS[M + "add_notes"] = dict(
              ("still-pitch-ordered-and-duplicate-free", SORTED),
              ("keeps-every-old-pitch", "all([any([pitch(n) == p for n in self.notes]) for p in old_pitches])"),
              ("holds-every-pitch-of-the-argument", "all([any([pitch(n) == p for n in self.notes]) for p in other_pitches])"),
-             ("and-nothing-else", "all([any([pitch(n) == p for p in old_pitches + other_pitches]) for n in self.notes])")],
+             ("and-nothing-else", "all([any([pitch(n) == p for p in old_pitches + other_pitches]) for n in self.notes])"),
+             ("a-note-taken-over-keeps-its-name-octave-channel-and-velocity",
+              "all([any([n.name == m.name and n.octave == m.octave and n.channel == m.channel and n.velocity == m.velocity "
+              "for n in self.notes]) for m in notes.notes if not any([p == pitch(m) for p in old_pitches])])")],
     modifies=["param:self", "param:self.notes"],
     inline_callees=[M + "add_note"],
     split=[{"field_types": {"self.notes": a, "notes.notes": b}} for a in SIZES[:2] for b in SIZES], split_is_domain=True,
     notes="domain: receiver holding 0 or 1 notes, argument holding 0, 1 or 2 notes, arbitrary pitches and spellings",
-    properties=["C12", "C13", "C15"], battery="nc_merge")
+    properties=["C12", "C13", "C15", "C18"], battery="nc_merge")
 
 # removal: by name removes that name in every octave, with an octave only that one, by Note every note of that pitch;
 # everything else stays, in order, as the same objects
@@ -80,9 +84,10 @@ SIZES4 = SIZES + ["[Note,Note,Note]"]
 CONTRACTS[M + "remove_note"] = dict(
     params={"self": "NoteContainer", "note": "str", "octave": "int"},
     requires=[("valid-names", "all([is_name(n.name) for n in self.notes])")],
-    old={"old_notes": "[n for n in self.notes]"},
+    old={"old_notes": "[n for n in self.notes]", "old_list": "self.notes"}, old_by_reference=["old_list"],
     returns="list[any]",
     ensures=[("returns-its-own-note-list", "same_object(result, self.notes)"),
+             ("the-list-it-held-before-is-not-edited", "list_same_objects(old_list, old_notes)"),
              ("keeps-exactly-the-others-in-order",
               "list_same(self.notes, [n for n in old_notes if %s])" % _KEEP_NAME)],
     modifies=["param:self"],
@@ -92,6 +97,7 @@ CONTRACTS[M + "remove_note"] = dict(
         name="by-note", params={"self": "NoteContainer", "note": "Note", "octave": "int"},
         requires=[("valid-names", "all([is_name(n.name) for n in self.notes]) and is_name(note.name)")],
         ensures=[("returns-its-own-note-list", "same_object(result, self.notes)"),
+                 ("the-list-it-held-before-is-not-edited", "list_same_objects(old_list, old_notes)"),
                  ("keeps-exactly-the-notes-of-other-pitch-in-order",
                   "list_same(self.notes, [n for n in old_notes if pitch(n) != pitch(note)])")])],
     notes="domain: containers of 0..3 notes with arbitrary names, octaves and order",
@@ -193,3 +199,20 @@ CONTRACTS[M + "__add__"] = dict(
     modifies=["param:self", "param:self.notes"], inline_callees=[M + "add_notes", M + "add_note"],
     split=[{"field_types": {"self.notes": a, "notes.notes": b}} for a in SIZES[:2] for b in SIZES[:2]], split_is_domain=True,
     notes="'+' is add_notes and hands back the receiver", properties=["C12"], battery="nc_merge")
+
+
+# equality of containers: same number of notes and every note of the one has a note of equal PITCH in the other
+# (spelling does not matter: C# and Db are the same key)
+CONTRACTS[M + "__eq__"] = dict(
+    params={"self": "NoteContainer", "other": "NoteContainer"},
+    requires=[("valid-names", "all([is_name(n.name) for n in self.notes]) and all([is_name(n.name) for n in other.notes])")],
+    returns="bool",
+    ensures=[("same-size-and-every-pitch-found-in-the-other",
+              "result == (len(self.notes) == len(other.notes) and "
+              "all([any([pitch(x) == pitch(y) for y in other.notes]) for x in self.notes]))")],
+    modifies=[],
+    split=[{"field_types": {"self.notes": a, "other.notes": b}} for a in SIZES for b in SIZES], split_is_domain=True,
+    variants=[dict(name="none", params={"self": "NoteContainer", "other": "None"}, requires=None, split=None,
+                   ensures=[("never-equal-to-None", "result == False")])],
+    notes="domain: containers of 0..2 notes each, arbitrary names and octaves",
+    properties=["C12"], battery="nc_pairs")
